@@ -16,7 +16,7 @@ PID = "C19"
 
 PROTOCOLS = ["PYRO", "pyro", "PyRo", "PYRONAME", "pyroname", "PYROMETA", "PyroMeta", "PYROX", "PYR", "PYRONAMES"]
 OBJECTS = ["obj", "o@b", "o.b-c_d", "a,b", "b,a,b", " a", "", "\u00e9", "obj#1", "Pyro.NameServer", "x:y", "a,,b", "@", "o@@", "1,@a", "@a,1", "b,@a", "@a", "a, b ,a", "a@", "b,a@", "z,a@,b", "b,a@x"]
-LOCATIONS = [None, "", "h:1", "HOST:1", "Host.Example.com:80", "h", "h:", ":1", ":", "1.2.3.4:5", "[::1]:5", "[::1]", "[[::1]]:5", "[abc]:5", "[ABC::1]:5",
+LOCATIONS = [None, "", "h:0", "h:000", "h:+0", "[FE80::1C2D:3E4F]:5", "[2001:db8::ABCD]", "h:1", "HOST:1", "Host.Example.com:80", "h", "h:", ":1", ":", "1.2.3.4:5", "[::1]:5", "[::1]", "[[::1]]:5", "[abc]:5", "[ABC::1]:5",
              "[fe80::1%eth0]:5", "[fe80::1%1]:5", "[::1]x:5", "[::1]:5x", "[1:2]:7", "[::1]:", "./u:s", "./u:", "./u:a:b", "./u:/tmp/a b", "./u:/tmp/s ", "./U:s",
              "h:+7", "h: 7", "h:7 ", "h:7_0", "h:\u0667", "h:-1", "h:0x7", "h:65536", "h:1:2", "h:99999999999999999999", "h :1", " h:1", "h:1 ", "h@i:1",
              "::1:5", "h:007", "h:0", "./u", ".:1", "[]:5", "[:]:5", "[::1]:+5"]
